@@ -1733,6 +1733,9 @@ uint32_t var_opt_sketch<T, A>::to_log_2(uint32_t v) {
 // Returns an integer in the range [0, max_value) -- excludes max_value
 template<typename T, typename A>
 uint32_t var_opt_sketch<T, A>::next_int(uint32_t max_value) {
+#ifdef DATASKETCHES_VERIF
+  if (random_utils::verif_src()) return static_cast<uint32_t>(random_utils::verif_src()->index(max_value));
+#endif
   std::uniform_int_distribution<uint32_t> dist(0, max_value - 1);
   return dist(random_utils::rand);
 }
